@@ -275,7 +275,7 @@ def main(argv):
 def write_evidence(path, pid, tier, seed, level, coverage, assumptions, wall, nviol):
     ev = {'property_id': pid, 'tier': tier, 'seed': seed, 'level': level, 'coverage': coverage,
           'assumptions': assumptions, 'wall_s': round(wall, 2), 'violations': nviol}
-    tmp = path + '.tmp'
+    tmp = '%s.%d.tmp' % (path, os.getpid())
     with open(tmp, 'w') as f:
         json.dump(ev, f, indent=1, default=str)
     os.replace(tmp, path)
